@@ -31,7 +31,7 @@ def cases(tier, rng):
     out = []
     for nf in (3, 4, 5, 6):
         out.append(dict(id=f"c05-m{nf}", mode="moments", nf=nf, Ns=[2.0, 3.0] + [float(rng.uniform(2.0, 14.0)) for _ in range(4 if tier == "quick" else 18)]))
-    n = 44 if tier == "quick" else 900
+    n = 44 if tier == "quick" else 4000
     for i in range(n):
         mode = "switch" if i % 4 == 3 else "algebra"
         ptos = (1, 2, 2, 3) if tier == "quick" else (1, 2, 2, 2, 3)
